@@ -8,7 +8,7 @@
   not delete pool j (for the lake-level `pools/` journal, j = 0, every label sequence qualifies:
   `reach_pools`).
 -/
-import Zed.Proofs.StoreJournal
+import Zed.Proofs.StoreTables
 namespace Zed.Props.C12
 open Zed.Store
 
@@ -56,6 +56,38 @@ theorem head_writer_is_creator (j : Nat) (s : Sys) (h : Reach j s) (c n : Nat)
   cases hx : s.store (.ent j (n + 1)) with
   | none => rfl
   | some v => rw [hx] at this; simp at this; omega
+
+/-- **constraint_exact** — every entry n+1 was written by one of the four journal.Store
+    operations whose constraint held under *exactly* the table replayed from entries 1..n —
+    never under a stale table: the loser of a put-if-absent race re-loads and re-checks.  (So a
+    key is inserted only when absent — names stay unique —, a branch tip is updated only from
+    the parent it was checked against, a delete removes the very value it was checked against.)
+    A change that checks the constraint against a stale table, or retries without reloading,
+    breaks this proof. -/
+theorem constraint_exact (j : Nat) (s : Sys) (h : Reach j s) (n : Nat)
+    (hn : (s.store (.ent j (n + 1))).isSome) :
+    ∃ (op : JOp) (t : Table), tableAt s.store j n = some t ∧ op.check t = none ∧
+      s.store (.ent j (n + 1)) = some (.entry op.acts) := by
+  obtain ⟨e, h1, h2⟩ := h.inv12
+  exact h2.wf n (by have := (h1.range (n + 1)).mp hn; omega)
+
+/-- **journal_replayable** — at every moment the journal replays without error, both up to
+    HEAD (what readers see) and up to its end. -/
+theorem journal_replayable (j : Nat) (s : Sys) (h : Reach j s) :
+    (∃ t, visibleTable s.store j = some t) ∧
+      ∀ n, (s.store (.ent j n)).isSome → ∃ t, tableAt s.store j n = some t := by
+  obtain ⟨e, h1, h2⟩ := h.inv12
+  refine ⟨h2.wf.tableAt_some _ h1.he, fun n hn => h2.wf.tableAt_some n ((h1.range n).mp hn).2⟩
+
+/-- **failed_op_invisible** (journal level) — a journal procedure step that ends in failure
+    (constraint, key exists, no such key, retries exceeded, I/O) writes neither an entry nor
+    HEAD; and a procedure that *has* created its entry can only go on to write HEAD and end
+    with `ok` (see `commit_at_end_succeeds`), so a failed operation has created no entry. -/
+theorem failed_op_invisible (s : Store) (j : Nat) (jc : JCache) (k : JKind) (pc : JPc)
+    (st : Store) (jc' : JCache) (r : Res) (ev : Ev)
+    (h : jstep s j jc k pc = .done st jc' r ev) (hr : r ≠ .ok) :
+    (∀ n, st (.ent j n) = s (.ent j n)) ∧ st (.head j) = s (.head j) :=
+  jstep_fail_quiet s j jc k pc st jc' r ev h hr
 
 /-! Non-vacuity: the hypotheses are satisfiable and the system does move. -/
 
